@@ -1441,6 +1441,10 @@ func (c *Client) sendSingleMsg(client *smtp.Client, message *Msg) error {
 	}
 	_, err = message.WriteTo(writer)
 	if err != nil {
+		// The DATA command has been accepted, but the message cannot be completed. Any further
+		// command would implicitly terminate the DATA stream and make the server accept the
+		// fragment written so far, so the only way to abort is to drop the connection.
+		_ = client.Close()
 		return &SendError{
 			Reason: ErrWriteContent, errlist: []error{err}, isTemp: isTempError(err),
 			affectedMsg: message, errcode: errorCode(err),
